@@ -79,6 +79,31 @@ def run(ctx):
         kk = rng.choice(ka); idx = tuple(rng.randrange(n) for _ in kk)
         got = a[tuple(zip(idx, kk))]
         if complex(got) != complex(np.asarray(A[kk])[idx]): ctx.violation('C08 tensor_getitem: wrong entry', dict(rp, key=list(kk), index=list(idx)))
+        # scalars on either side (constant term), item assignment, projection onto index selections
+        c0 = rng.choice([1.5, -2.0, 0.25j, 3])
+        K0 = coq_fop_terms({(): complex(c0)})
+        try:
+            add('tensor_scalar_sides', '(fermi_equiv %s (%s ++ %s) && fermi_equiv %s (%s ++ %s) && fermi_equiv %s (%s ++ iscale %s Cm1) && fermi_equiv %s (iscale %s Cm1 ++ %s) && fermi_equiv %s (%s ++ %s))' %
+                (E(a + c0), SA, K0, E(c0 + a), SA, K0, E(a - c0), SA, K0, E(c0 - a), SA, K0, E(sum([a, b])), SA, SB), dict(rp, call='a + c, c + a, a - c, c - a, sum([a, b])', c=repr(c0)), key=('sides', repr(rp), repr(c0)))
+        except Exception as e:
+            ctx.count('tensor_scalar_sides', 1); ctx.violation('C08 scalar arithmetic on a PolynomialTensor raised %s: %s' % (type(e).__name__, e), dict(rp, c=repr(c0)))
+        a3 = of.PolynomialTensor(copy.deepcopy(A)); kk3 = rng.choice([x for x in ka if x] or [ka[0]])
+        if kk3:
+            idx3 = tuple(rng.randrange(n) for _ in kk3); v3 = dyc(rng)
+            a3[tuple(zip(idx3, kk3))] = v3
+            A3 = copy.deepcopy(A); A3[kk3] = np.asarray(A3[kk3], dtype=complex); A3[kk3][idx3] = v3
+            add('tensor_setitem', '(fermi_equiv %s %s)' % (E(a3), coq_fop_terms(spec_poly(A3))), dict(rp, call='a[index] = v', key=list(kk3), index=list(idx3), v=repr(v3)), key=('set', repr(rp), idx3))
+        for sel, exact in ((rng.randint(0, 3), rng.random() < 0.5), (set(rng.sample(range(n), rng.randint(0, n))), rng.random() < 0.5)):
+            proj = a.projected_n_body_tensors(sel, exact)
+            if isinstance(sel, int): pred = (lambda ix: len(set(ix)) == sel) if exact else (lambda ix: len(set(ix)) <= sel)
+            else: pred = (lambda ix: set(ix) == sel) if exact else (lambda ix: set(ix) <= sel)
+            want = {w: c_ for w, c_ in sa.items() if pred(tuple(j for j, _ in w))}
+            add('tensor_projected', '(fermi_equiv %s %s)' % (coq_fop_terms(spec_poly(proj)), coq_fop_terms(want)), dict(rp, call='projected_n_body_tensors', selection=repr(sel), exact=exact), key=('proj', repr(rp), repr(sel), exact))
+        if all(np.isrealobj(np.asarray(v)) or not np.any(np.imag(v)) for v in A.values()):
+            md = rng.choice([2, 3, 0.75])
+            Ar = {kk_: np.real(np.asarray(v)) for kk_, v in A.items()}
+            ar = of.PolynomialTensor(copy.deepcopy(Ar))
+            add('tensor_mod', '(fermi_equiv %s %s)' % (E(ar % md), coq_fop_terms(spec_poly({kk_: np.mod(v, md) for kk_, v in Ar.items()}))), dict(rp, call='a % m', m=md), key=('mod', repr(rp), md))
     # ---- the same arithmetic on the PolynomialTensor subclasses (own constructors / overrides, non-zero constant) and
     #      on DiagonalCoulombHamiltonian (separate class), judged through their denotation
     for i in range(N(60, 400)):
@@ -244,5 +269,27 @@ def run(ctx):
         if exact_terms_ok(mol, lo=30) and exact_terms_ok(par, lo=30) and exact_terms_ok(q.terms, lo=30):
             add('doci', '(doci_ok %s %s %s && doci_ok %s %s %s)' % (cnat(n), coq_qop(q), coq_fop_terms(mol), cnat(n), coq_qop(q), coq_fop_terms(par)),
                 {'call': 'DOCIHamiltonian.from_integrals: qubit_operator vs molecular Hamiltonian and vs n_body_tensors on doubly occupied states', 'one_body_integrals': h.tolist(), 'constant': const}, key=repr(mol))
+        # DOCIHamiltonian arithmetic (own overrides acting on hc / hr1 / hr2): linear in the pair-qubit operator and in the stored tensors
+        h2 = np.zeros((n, n))
+        for p in range(n):
+            for q_ in range(p, n): h2[p, q_] = h2[q_, p] = rng.randint(-4, 4) / 4
+        eri2 = rand_eri(rng, n); k = rng.choice([2.0, -0.5, 4.0])
+        x = of.DOCIHamiltonian.from_integrals(const, h, eri); y = of.DOCIHamiltonian.from_integrals(0.75, h2, eri2)
+        qx, qy = coq_qop(x.qubit_operator), coq_qop(y.qubit_operator)
+        dn = lambda t: coq_fop_terms(spec_poly(dict(t.n_body_tensors)))
+        dx, dy_ = dn(x), dn(y)
+        rpd = {'n': n, 'k': k, 'x': [const, h.tolist(), repr(eri.tolist())], 'y': [0.75, h2.tolist(), repr(eri2.tolist())]}
+        for name, fn, qspec, fspec in (('x + y', lambda: x + y, '(qadd0 %s %s)' % (qx, qy), '(%s ++ %s)' % (dx, dy_)), ('x - y', lambda: x - y, '(qsub0 %s %s)' % (qx, qy), '(%s ++ iscale %s Cm1)' % (dx, dy_)),
+                                       ('x * k', lambda: x * k, '(iscale %s %s)' % (qx, cC(k)), '(iscale %s %s)' % (dx, cC(k))), ('k * x', lambda: k * x, '(iscale %s %s)' % (qx, cC(k)), '(iscale %s %s)' % (dx, cC(k))),
+                                       ('x / k', lambda: x / k, '(iscale %s (Cinv %s))' % (qx, cC(k)), '(iscale %s (Cinv %s))' % (dx, cC(k))), ('x + 1.5', lambda: x + 1.5, '(qadd0 %s %s)' % (qx, coq_qop(of.QubitOperator((), 1.5))), '(%s ++ %s)' % (dx, coq_fop_terms({(): 1.5})))):
+            try: r = fn()
+            except Exception as e:
+                ctx.count('doci_arithmetic', 1); ctx.violation('C08 DOCIHamiltonian %s raised %s: %s' % (name, type(e).__name__, e), dict(rpd, call=name)); continue
+            if not hasattr(r, 'qubit_operator'):
+                ctx.count('doci_arithmetic', 1); ctx.violation('C08 DOCIHamiltonian %s does not return a DOCIHamiltonian' % name, dict(rpd, call=name)); continue
+            add('doci_arithmetic', '(pauli_equiv %s %s && fermi_equiv %s %s)' % (coq_qop(r.qubit_operator), qspec, dn(r), fspec), dict(rpd, call='DOCIHamiltonian ' + name), key=(name, repr(rpd)))
+        # operands keep their value
+        add('doci_arithmetic', '(pauli_equiv %s %s && pauli_equiv %s %s)' % (coq_qop(x.qubit_operator), qx, coq_qop(y.qubit_operator), qy), dict(rpd, call='operands after arithmetic'), key=('after', repr(rpd)))
+        # (DOCIHamiltonian indexing is a view of hc / hr1 / hr2 pinned by the library's own tests, not of n_body_tensors: not judged here)
     res = coq_eval_bools(ctx, 'c08', IMPORTS, items, chunk=30)
     judge(ctx, res, meta, 'C08')
